@@ -171,11 +171,28 @@ def gen_trace(seed, world, tier, mode=None, chunk=None):
     storage = R.choice(["dense", "dense", "sparse"])
     if mode in ("caps", "caps_big"):
         sysd = gen_system(R, 10 if mode == "caps_big" else min(nmax, 6))
+        if mode == "caps_big" and R.random() < 0.25 and sysd["family"] in ("generic", "herm", "unitary"):
+            # a mid-size system (n = 12..20): only the default cap and two partial caps are run
+            nb = R.randint(12, 20)
+            if sysd["family"] == "generic":
+                sysd["A"] = dict(sysd["A"], m=nb, n=nb,
+                                 sigma=[round_sig(v) for v in logspace_sigma(R, nb, 10 ** R.choice([0, 1, 2, 3]))])
+            elif sysd["family"] == "herm":
+                sysd["A"] = dict(sysd["A"], n=nb, lam=[round_sig(v * R.choice([1, -1]))
+                                                         for v in logspace_sigma(R, nb, 10 ** R.choice([0, 1, 2]))])
+            else:
+                sysd["A"] = dict(sysd["A"], n=nb)
+            sysd["b"] = {"gen": "gauss", "m": nb, "n": 1, "seed": R.randrange(10 ** 6)}
+            sysd["bkind"] = "gauss"
+            sysd["n"] = nb
+            sysd["mid"] = True
         n = sysd["n"]
         jitter = R.random() < 0.5
         precs = R.choice([("none",), ("none", "left_lu"), ("none", "left_lu"), ("left_lu",)])
         for prec in precs:
             caps = [None] + list(range(n)) if prec == "none" else [None, 0]
+            if sysd.get("mid"):
+                caps = [None, R.randrange(n), n - 1] if prec == "none" else [None]
             for cap in caps:
                 _solve_steps(steps, sysd, 0, tol, prec, cap, storage, jitter, R)
         sc = R.choice([0, 0, -6, -3, 3, 6])
